@@ -64,7 +64,7 @@ class Pool:
         return obj
 
 
-def level_event(cp, pms, lvl, uni, pos, cf):
+def level_event(cp, pms, lvl, uni, pos, cf, lattice_unit=False):
     grid = cp.grid
     axis = np.array(grid.axes[0], dtype=float)
     org = int(grid.origin_coordinate.value)
@@ -98,6 +98,50 @@ def level_event(cp, pms, lvl, uni, pos, cf):
             vals = sorted(seen)
             moves.append([k + 1, n_right, n, [pos.add(v) for v in vals]])
     ev["moves"], ev["evens"] = moves, evens
+    # slices of several jumps (lattice grids: exact units): the coupled values of a slice are the running sums of the jumps
+    # coupled one by one with the same uniforms, whatever the sign of the increment and the container of the slice
+    slices1 = []
+    if lvl >= 1 and lattice_unit:
+        import random as _r
+        rr = _r.Random(77 * lvl + len(axis))
+        # increments the chain can produce: odd ones with a positive rate (those of `moves`), and the even ones
+        cands = [m[0] - 1 - org for m in moves] + [e_[0] - 1 - org for e_ in evens if e_[0] - 1 != org]
+
+        class SeqU1:
+            sampling_cost = 0
+
+            def __init__(self, vals):
+                self.vals = list(vals)
+
+            def sample(self, size=1):
+                return np.array([self.vals.pop(0)])
+
+            def reset_sampling_cost(self):
+                pass
+
+            def cost(self):
+                return 0
+        for rep in range(6):
+            incs = [rr.choice(cands) for _ in range(rr.choice([2, 3, 5]))]
+            if rep == 0:
+                negodd = [c for c in cands if c < 0 and c % 2]
+                incs = (negodd[:1] + incs) if negodd else incs
+            us = [rr.choice([0.05, 0.3, 0.55, 0.8, 0.97]) for _ in incs]
+            single = []
+            for inc, u in zip(incs, us):
+                uni.value = u
+                single.append(exact_int(float(sim.coupling_state(int(inc))) / U))
+            consuming = [u for inc, u in zip(incs, us) if inc % 2]
+            cp.uniform = SeqU1(consuming)
+            try:
+                container = np.array(incs) if rep % 2 == 0 else list(incs)
+                got = [exact_int(float(v) / U) for v in sim.coupling_states_for_a_slice(container)]
+            except Exception:
+                got = [-77777]
+            finally:
+                cp.uniform = uni
+            slices1.append({"single": single, "slice": got})
+    ev["slices1"] = slices1
     ev["zero"] = cf.add(0.0)
     ev["sigF2"] = cf.add(float(cp.equivalent_diffusion_coefficient_fine) ** 2)
     ev["sigC2"] = cf.add(float(cp.equivalent_diffusion_coefficient_coarse) ** 2)
@@ -144,10 +188,10 @@ def run_coupling(tid, kind, grid, atoms, unit, method, fv, sigma, a, maxlvl):
         cp.initialisation(product)
         pms = [create_path(ConfigurationMultiLevel(), cp.fine_process.deterministic_path)]
         cp.pre_computation(mc_paths=1, product=product)
-        ev.append(level_event(cp, pms, 0, uni, pos, cf))
+        ev.append(level_event(cp, pms, 0, uni, pos, cf, unit is not None))
         for lvl in range(1, maxlvl + 1):
             cp.next_level(mc_paths=1, path_managers=pms, product=product)
-            ev.append(level_event(cp, pms, lvl, uni, pos, cf))
+            ev.append(level_event(cp, pms, lvl, uni, pos, cf, unit is not None))
     except Exception as ex:
         ev.append({"e": "Raise", "what": type(ex).__name__ + ": " + str(ex)[:80]})
     t = {"tid": tid, "hdr": hdr, "ev": ev}
